@@ -120,7 +120,12 @@ class JsonSchemaParser:
         readonly = schema.get('readOnly')
         writeonly = schema.get('writeOnly')
         aliases = schema.get('x-aliases')
-        kwargs.update(self.get_constraints(schema))
+        constraints = self.get_constraints(schema)
+        if type is Any and constraints:
+            # no type given: a field annotated Any ignores its constraints, so the type has to carry them
+            type = Rule.annotate(None, constraints=constraints)
+        else:
+            kwargs.update(constraints)
         kwargs.update(
             alias=alias,
             default=default,
